@@ -219,7 +219,7 @@ class RDTrajectory :
             return 0
         
         if t>=self.t.get_at(self.nsamples()-1) :
-            return self.nsamples()-1
+            return self._first_sample_with_same_time(self.nsamples()-1)
         
         for i in range(self.nsamples()-1) :
             if t>=self.t.get_at(i) and t<self.t.get_at(i+1):
@@ -227,9 +227,15 @@ class RDTrajectory :
                 dt1 = self.t.get_at(i+1)-t
                 
                 if dt0<=dt1 : 
-                    return i
+                    return self._first_sample_with_same_time(i)
                 else : 
                     return i+1
+
+    def _first_sample_with_same_time(self, i) :
+        #ties go to the earlier sample, also when several samples share the same time
+        while i>0 and self.t.get_at(i-1)==self.t.get_at(i) :
+            i -= 1
+        return i
 
     def _get_sample_index_infeq(self, t) :
 
@@ -254,9 +260,6 @@ class RDTrajectory :
         if t<=self.t.get_at(0) :
             return 0
         
-        if t==self.t.get_at(self.nsamples()-1) :
-            return self.nsamples()-1
-
         if t>self.t.get_at(self.nsamples()-1) :
             return None
         
